@@ -112,7 +112,7 @@ def cursor(ctx: Ctx, rep: Report) -> None:
                 s, ast.Subscript) and norm(s.value) == 'params'][0].slice
             lo = norm(sl.lower) if sl.lower else '0'
             hi = linform(sl.upper, uses[0], rd) if sl.upper else None
-            w = norm(adv[0].stmt.value)
+            w = norm(valnum.subst(ctx, f, adv[0], adv[0].stmt.value))
             ok = (
                 lo == 'param_index' and isinstance(adv[0].stmt.op, ast.Add)
                 and w in WIDTHS and hi is not None
